@@ -359,8 +359,10 @@ Definition split_common_prefix (child : tree) (tok : string) : tree * nat :=
 Definition is_special (c : ascii) : bool :=
   Ascii.eqb c "*" || Ascii.eqb c ":" || Ascii.eqb c "\".
 
-(** addNode; [fin] is what [Add] does with the node reached (options, append) *)
-Fixpoint add_node (fuel : nat) (n : tree) (path : string) (wk : list string) (in_static : bool)
+(** addNode; [fin] is what [Add] does with the node reached (options, append).
+    [fx3]: the candidate repair fixes/C03-F3.diff (a free wildcard whose earlier wildcard
+    names differ from the ones recorded at the catch-all child is rejected, as for a leaf). *)
+Fixpoint add_node (fx3 : bool) (fuel : nat) (n : tree) (path : string) (wk : list string) (in_static : bool)
          (fin : tree -> tree) : ares :=
   match fuel with
   | O => AFuel
@@ -386,6 +388,7 @@ Fixpoint add_node (fuel : nat) (n : tree) (path : string) (wk : list string) (in
                           | None => (child_created n, leaf name)
                           end in
           if negb (String.eqb (sdrop 1 path) (t_path c)) then AInvalid else
+          if fx3 && negb (is_nil (t_keys c)) && negb (list_eqb String.eqb (t_keys c) (wk ++ [name])) then AInvalid else
           AOk (set_catch n1 (fin (set_keys c (wk ++ [name]))))
         end
       else if negb in_static && Ascii.eqb token ":" then
@@ -393,7 +396,7 @@ Fixpoint add_node (fuel : nat) (n : tree) (path : string) (wk : list string) (in
                         | Some w => (n, w)
                         | None => (child_created n, leaf "wildcard")
                         end in
-        match add_node f w remaining (wk ++ [sdrop 1 this_token]) false fin with
+        match add_node fx3 f w remaining (wk ++ [sdrop 1 this_token]) false fin with
         | AOk w' => AOk (set_wild n1 w')
         | e => e
         end
@@ -409,13 +412,13 @@ Fixpoint add_node (fuel : nat) (n : tree) (path : string) (wk : list string) (in
         | Some child =>
           let '(child1, split) := split_common_prefix child this_token' in
           let split' := if esc then S split else split in
-          match add_node f child1 (sdrop split' path) wk (negb (Ascii.eqb token' "/")) fin with
+          match add_node fx3 f child1 (sdrop split' path) wk (negb (Ascii.eqb token' "/")) fin with
           | AOk child2 => AOk (set_statics n (replace_static token' child2 (t_statics n)))
           | e => e
           end
         | None =>
           let n1 := child_created n in
-          match add_node f (leaf this_token') remaining wk (negb (Ascii.eqb token' "/")) fin with
+          match add_node fx3 f (leaf this_token') remaining wk (negb (Ascii.eqb token' "/")) fin with
           | AOk child' => AOk (set_statics n1 (t_statics n ++ [(token', child')]))
           | e => e
           end
@@ -427,8 +430,8 @@ Definition empty_tree : tree := leaf "".
 
 (** Tree.Add(path, value, WithBacktracking(flag)); the repository's constraint
     function (same rule set per node) always holds for a single rule set *)
-Definition tree_add (t : tree) (path : string) (v : nat) (flag : bool) : ares :=
-  add_node (S (S (slen path))) t path [] false (put_value flag v).
+Definition tree_add (fx3 : bool) (t : tree) (path : string) (v : nat) (flag : bool) : ares :=
+  add_node fx3 (S (S (slen path))) t path [] false (put_value flag v).
 
 (* ------------------------------------------------------------------ radix tree: findNode / Find *)
 
@@ -581,11 +584,11 @@ Fixpoint create_rules (ds : list ruledef) : res (list crule) :=
   end.
 
 (** addRulesTo: every route of every rule, in order, into (a clone of) the tree *)
-Fixpoint add_entries (t : tree) (vid : nat) (es : list centry) : ares :=
+Fixpoint add_entries (fx3 : bool) (t : tree) (vid : nat) (es : list centry) : ares :=
   match es with
   | [] => AOk t
-  | e :: r => match tree_add t (ce_path e) vid (ce_bt e) with
-              | AOk t' => add_entries t' (S vid) r
+  | e :: r => match tree_add fx3 t (ce_path e) vid (ce_bt e) with
+              | AOk t' => add_entries fx3 t' (S vid) r
               | x => x
               end
   end.
@@ -596,12 +599,12 @@ Inductive loaded :=
 | ModelFuel                    (* never: the fuel of add_node is sufficient *)
 | Loaded (es : list centry) (t : tree).
 
-Definition load (ds : list ruledef) : loaded :=
+Definition load (fx3 : bool) (ds : list ruledef) : loaded :=
   match create_rules ds with
   | Rejected => CreateFailed
   | Ok cs =>
     let es := entries_of 0 cs in
-    match add_entries empty_tree 0 es with
+    match add_entries fx3 empty_tree 0 es with
     | AOk t => Loaded es t
     | AInvalid => AddFailed
     | AFuel => ModelFuel
